@@ -46,6 +46,8 @@ type buildOpts struct {
 	after func(s stackage.Stack, path string)
 	// ptrs collects the pointer variables created for "PS" / "CPS" nodes (so that a caller can re-point them)
 	ptrs *[]*stackage.Stack
+	// condAfter is called on every Condition once it is complete
+	condAfter func(c stackage.Condition)
 }
 
 func (n node) buildStack(path string, o *buildOpts) stackage.Stack {
@@ -73,6 +75,16 @@ func (n node) buildStack(path string, o *buildOpts) stackage.Stack {
 }
 
 func (n node) build(path string, o *buildOpts) any {
+	v := n.buildRaw(path, o)
+	if o != nil && o.condAfter != nil {
+		if cd, ok := refAsCond(v); ok {
+			o.condAfter(cd)
+		}
+	}
+	return v
+}
+
+func (n node) buildRaw(path string, o *buildOpts) any {
 	switch n.T {
 	case "leaf":
 		if n.V != nil {
@@ -131,6 +143,20 @@ func (n node) build(path string, o *buildOpts) any {
 		return CondAlias(stackage.Cond("kw"+path, stackage.Eq, "E"+path))
 	case "CCS":
 		return CondAlias(stackage.Cond("kw"+path, stackage.Ne, n.buildStack(path, o)))
+	case "P3S", "CP3S", "P3C": // three pointer levels above a Stack (as element / as a Condition's expression), above a Condition holding a Stack
+		st := n.buildStack(path, o)
+		if n.T == "P3C" {
+			cd := stackage.Cond("kw"+path, stackage.Ne, st)
+			p1 := &cd
+			p2 := &p1
+			return &p2
+		}
+		p1 := &st
+		p2 := &p1
+		if n.T == "CP3S" {
+			return stackage.Cond("kw"+path, stackage.Le, &p2)
+		}
+		return &p2
 	case "C2S": // a Condition whose expression is a Condition that holds a Stack: not a way down (the expression is no Stack)
 		return stackage.Cond("outer"+path, stackage.Eq, stackage.Cond("inner"+path, stackage.Ne, n.buildStack(path, o)))
 	case "C2A":
